@@ -6,6 +6,7 @@ import Driver.Codec
 import Proofs.RT.Top
 import Proofs.LRT.Bool
 import Proofs.C03.FoldValue
+import Proofs.MRT.Spell
 set_option autoImplicit false
 
 namespace Narsese.Driver
@@ -292,6 +293,20 @@ def exec (op fmt payload : String) : Except String String := do
     let v ← runRd rdNarsese payload
     let x := toLexN F v
     pure s!"h {bit (wfN F v && topN F v)} {bit (wfLNB L x && wsFreeN L x)} ok {showNarsese .canon v}"
+  | "spellA" | "spellB" | "spellC" | "spellD" =>
+    -- model-only: an instance of the master theorem (`Props/C09b.lean`): a spelling of the value
+    -- (A: no spaces; B: pseudo-random spaces; C: spaces + derived copulas; D: derived copulas, no spaces),
+    -- whether all decidable hypotheses hold for it, its text, and the value it must parse to
+    let F ← efmtOf fmt
+    let L ← lfmtOf fmt
+    let v ← runRd rdNarsese payload
+    let k := payload.length
+    let σ : Nat → Nat := match op with
+      | "spellA" | "spellD" => fun _ => 0
+      | _ => fun i => (i * 7 + k + i / 5) % 3
+    let sugar := op == "spellC" || op == "spellD"
+    let sv := spell F σ sugar v
+    pure s!"h {bit (spellOK F L sv v)} {hs (svalTxt F sv)} ok {showNarsese .canon v}"
   | "numok" =>
     -- is this (bits, text) pair what the model requires of a printed number?
     let x ← runRd rdNum payload
